@@ -106,6 +106,13 @@ def run(tier, seed):
             pre = rnd.choice(['', 'li', '*', '.x'])
             pat = f'{pre}:{rnd.choice([kind, kind.upper()]) if rnd.random() < 0.1 else kind}({arg}{ofs})'
             cp = {'pseudos': [ast_p]}
+            if rnd.random() < 0.3:
+                # two (or three) positional pseudo-classes in one compound: a conjunction, each counted from its own start
+                for _k in range(rnd.choice([1, 1, 2])):
+                    a2, b2 = rnd.choice([(2, 1), (3, 0), (-1, rnd.randint(2, 8)), (1, rnd.randint(0, 4)), (2, 0), (rnd.randint(-4, 4), rnd.randint(-4, 8))])
+                    kind2 = rnd.choice(KINDS)
+                    pat += f':{kind2}({spell(rnd, a2, b2)})'
+                    cp['pseudos'].append(('nth', kind2, a2, b2, None))
             if pre == 'li':
                 cp['type'] = (None, 'li')
             elif pre == '*':
@@ -135,7 +142,12 @@ def run(tier, seed):
                        (':only-child', ':nth-child(1):nth-last-child(1)'), (':only-of-type', ':nth-of-type(1):nth-last-of-type(1)')):
             with warnings.catch_warnings():
                 warnings.simplefilter('ignore')
-                x, y = sv.select(kw, top), sv.select(eq, top)
+                st_, val_ = lib.call_with_timeout(lambda: (sv.select(kw, top), sv.select(eq, top)), 20)
+            if st_ != 'ok':
+                ck.violation(f'select({kw!r}) / select({eq!r}) ' + ('did not return within 20 s' if st_ == 'timeout' else f'raised {type(val_).__name__}'),
+                             {'markup': str(top), 'a': kw, 'b': eq})
+                continue
+            x, y = val_
             ck.count(('kw', kw, len(x) > 0))
             if [id(e) for e in x] != [id(e) for e in y]:
                 ck.violation(f'{kw} and {eq} select different elements', {'markup': str(top), 'a': kw, 'b': eq,
